@@ -9,9 +9,11 @@ the end of the list (`peek [] = 0`), and `cstr` cuts a byte string at its first 
 does for the reader.  `std::map<std::string, json>` is an association list kept sorted by the
 byte-wise order of `std::string::compare` (`insert`); `WF` states the ordering invariant.
 
-The model describes the REPAIRED code (fix: patches F28, FJ1, FJ2, FJ3, FJ5 of fixes/):
-object keys are dumped through the string escaper; typed assignment clears `primitive::source`;
-`set` converts through `asObject()`; merging looks keys up literally; an unclosed object is an error.
+The model describes the code with the fix: commits of this project applied (fixes/F28, FJ1, FJ2, FJ3, FJ5,
+FJ6 from this work; from the constant-folding work: integer literals get the first type that holds their
+value — `integerLiteral` — and primitive::equal compares floats numerically): object keys are dumped
+through the string escaper; typed assignment clears `primitive::source`; `set` converts through
+`asObject()`; merging looks keys up literally; an unclosed object is an error.
 A json node therefore has no hidden state: only the representation selected by `type` is observable.
 Core Lean only.
 -/
@@ -175,31 +177,6 @@ def parseBinaryStr (s : Bytes) : Nat :=
   let ret := go s 0
   if neg then (two64 - ret) % two64 else ret
 
-/-- occa::parseInt(const char*) (string.cpp); the result is a uint64_t -/
-def parseIntStr (s0 : Bytes) : Nat :=
-  let s := skipWs s0
-  let (neg, s) := if peek s = cPlus || peek s = cMinus then (peek s == cMinus, s.drop 1) else (false, s)
-  if peek s = 48 then parseBinaryStr s0 else
-  let (ret, s) := readDec s 0
-  let rec suffix : Bytes → Nat → Bool → Nat × Bool
-    | [], l, u => (l, u)
-    | c :: r, l, u =>
-      let C := upper c
-      if C = 76 then suffix r (l + 1) u else if C = 85 then suffix r l true else (l, u)
-  let (longs, uns) := suffix s 0 false
-  let ret := if neg then (two64 - ret) % two64 else ret
-  if longs = 0 then
-    (if uns then ret % 4294967296 else (wrapU 64 (wrapS 32 ret)).toNat)
-  else ret
-
-/-- the typed result of primitive::loadBinary / loadHex: `bits` decides the width -/
-def sizedPrim (bits : Nat) (neg : Bool) (v : Nat) : Prim :=
-  let x : Int := if neg then - (v : Int) else v
-  if bits < 8 then (if neg then Prim.mk' .i8 x else Prim.mk' .u8 x)
-  else if bits < 16 then (if neg then Prim.mk' .i16 x else Prim.mk' .u16 x)
-  else if bits < 32 then (if neg then Prim.mk' .i32 x else Prim.mk' .u32 x)
-  else (if neg then Prim.mk' .i64 x else Prim.mk' .u64 x)
-
 def readBin : Bytes → Nat → Nat → Nat × Nat × Bytes
   | [], acc, n => (acc, n, [])
   | c :: r, acc, n => if c = 48 || c = 49 then readBin r ((acc * 2 + (c.toNat - 48)) % two64) (n + 1) else (acc, n, c :: r)
@@ -257,9 +234,19 @@ def decimalOfText (s : Bytes) : Bool × Nat × Int :=
     else 0
   (neg, m, e - nf)
 
-/-- the type chosen from the suffix: no L -> 32 bit, L / LL -> 64 bit, U -> unsigned -/
-def sufType (longs : Nat) (uns : Bool) : PType :=
-  if longs = 0 then (if uns then .u32 else .i32) else (if uns then .u64 else .i64)
+/-- integerLiteral (primitive.cpp): the first type that can represent the value, from the list
+    C and C++ use for the base and suffix of the literal:  decimal: int, long;  hex/octal/binary: int,
+    unsigned, long, unsigned long;  `u`: only unsigned types;  `l`/`ll`: only 64-bit types -/
+def intLiteral (v : Nat) (isDecimal uns : Bool) (longs : Nat) : PType :=
+  if longs = 0 && !uns && v ≤ 2147483647 then .i32
+  else if longs = 0 && (uns || !isDecimal) && v ≤ 4294967295 then .u32
+  else if !uns && v ≤ 9223372036854775807 then .i64
+  else .u64
+
+/-- the typed literal, with the sign applied afterwards (`primitive::negative`) -/
+def signedLiteral (v : Nat) (isDecimal uns : Bool) (longs : Nat) (neg : Bool) : PType × Int :=
+  let ty := intLiteral v isDecimal uns longs
+  (ty, if neg then ty.wrap (- (v : Int)) else (v : Int))
 
 /-- sign handling of primitive::load: `+`/`-`, then whitespace -/
 def splitSign (s0 : Bytes) : Bool × Bytes :=
@@ -272,25 +259,23 @@ def loadFormatted (s0 : Bytes) (neg : Bool) (s : Bytes) (C1 : UInt8) : Prim × B
   let (v, n, rest) := if C1 = 66 then readBin body 0 0 else readHex body 0 0
   if n = 0 then (primNone, s0)
   else
-    let bits := (if C1 = 66 then n else 4 * n) + (if neg then 1 else 0)
-    let p := sizedPrim bits neg v
     let (longs, uns, _, _, rest) := sufLoop true rest 0 false false
-    let ty := sufType longs uns
+    let (ty, x) := signedLiteral v false uns longs neg
     let used := s0.take (s0.length - rest.length)
-    (⟨ty, ty.wrap p.val, used⟩, rest)
+    (⟨ty, x, used⟩, rest)
 
 /-- the decimal branch of primitive::load; `expLoad` is the recursive `primitive::load(++c)` used
     for an exponent -/
-def loadDecimal (expLoad : Bytes → Prim × Bytes) (s0 s : Bytes) : Prim × Bytes :=
-  let (digits, dot, s) := scanDigitsDots s 0 false
+def loadDecimal (expLoad : Bytes → Prim × Bytes) (s0 s : Bytes) (neg : Bool) : Prim × Bytes :=
+  let (digits, dot, s1) := scanDigitsDots s 0 false
   if digits = 0 then (primNone, s0)
   else
-    let (longs, uns, fl, how, s) := sufLoop false s 0 false false
+    let (longs, uns, fl, how, s2) := sufLoop false s1 0 false false
     let (dec, fl, rest) :=
       match how with
-      | .plain => (dot, fl, s)
+      | .plain => (dot, fl, s2)
       | .exp =>
-        let (ep, r) := expLoad s
+        let (ep, r) := expLoad s2
         (true, ep.ty.isFloat, r)
     let used := s0.take (s0.length - rest.length)
     if dec || fl then
@@ -299,9 +284,12 @@ def loadDecimal (expLoad : Bytes → Prim × Bytes) (s0 s : Bytes) : Prim × Byt
       if fl then (⟨.f32, JsonFloat.f64ToF32 d, used⟩, rest)
       else (⟨.f64, d, used⟩, rest)
     else
-      let v := parseIntStr used
-      let ty := sufType longs uns
-      (⟨ty, ty.wrap v, used⟩, rest)
+      -- [cDigits, cDigitsEnd): a leading 0 starts an octal literal (read by parseBinary)
+      let digitText := s.take (s.length - s1.length)
+      let isDecimal := peek s != 48
+      let v := if isDecimal then (readDec digitText 0).1 else parseBinaryStr digitText
+      let (ty, x) := signedLiteral v isDecimal uns longs neg
+      (⟨ty, x, used⟩, rest)
 
 /-- primitive::load(const char *&c, includeSign = true).  Returns the primitive and the cursor.
     `fuel` bounds the nesting of exponents (`1e1e1e…`); each level consumes a character. -/
@@ -314,7 +302,7 @@ def loadPrim : Nat → Bytes → Prim × Bytes
       let (neg, s) := splitSign s0
       let C1 := upper (peek (s.drop 1))
       if peek s = 48 && (C1 = 66 || C1 = 88) then loadFormatted s0 neg s C1
-      else loadDecimal (loadPrim fuel) s0 s
+      else loadDecimal (loadPrim fuel) s0 s neg
 
 /-! ### comparing and adding numbers -/
 
@@ -326,21 +314,6 @@ def Prim.toInt (p : Prim) : Int :=
   | _ => p.val
 
 def maxTy (a b : PType) : PType := if a.rank > b.rank then a else b
-
-/-- `(bool) primitive::equal(a, b)` as used by json::operator==.  Integer/bool result types
-    compare `a.to<T>() == b.to<T>()`; float result types compare the bit patterns and are only
-    meaningful (and only exercised) when both operands have that float type. -/
-def primEq (a b : Prim) : Bool :=
-  let t := maxTy a.ty b.ty
-  match t with
-  | .none => false
-  | .f32 | .f64 => a.ty = b.ty && a.val = b.val
-  | t => t.wrap a.toInt = t.wrap b.toInt
-
-/-- the type C++ gives `T + T` after integer promotion, as stored by `primitive(T + T)` -/
-def promote : PType → PType
-  | .bool | .i8 | .u8 | .i16 | .u16 | .i32 => .i32
-  | t => t
 
 /-- `to<double>()` / `to<float>()`, evaluated with Lean's runtime floats (never reasoned about) -/
 def Prim.toF64 (p : Prim) : Float :=
@@ -354,6 +327,22 @@ def Prim.toF32 (p : Prim) : Float32 :=
   | .f64 => (Float.ofBits p.val.toNat.toUInt64).toFloat32
   | .f32 => Float32.ofBits p.val.toNat.toUInt32
   | _ => Float32.ofInt p.val
+
+/-- `(bool) primitive::equal(a, b)` as used by json::operator==: `a.to<T>() == b.to<T>()` with `T` the
+    higher-ranked operand type (IEEE comparison for float and double: NaN differs from itself,
+    -0.0 equals 0.0; evaluated with the runtime's floats, tested only) -/
+def primEq (a b : Prim) : Bool :=
+  let t := maxTy a.ty b.ty
+  match t with
+  | .none => false
+  | .f32 => a.toF32 == b.toF32
+  | .f64 => a.toF64 == b.toF64
+  | t => t.wrap a.toInt = t.wrap b.toInt
+
+/-- the type C++ gives `T + T` after integer promotion, as stored by `primitive(T + T)` -/
+def promote : PType → PType
+  | .bool | .i8 | .u8 | .i16 | .u16 | .i32 => .i32
+  | t => t
 
 /-- primitive::addEq: `a = a.to<T>() + b.to<T>()` with `T` the higher-ranked operand type; the sum of
     two sub-`int` operands is an `int`.  Float sums use the runtime's IEEE arithmetic (tested through
